@@ -7,7 +7,8 @@ Import ListNotations.
 
 Inductive bval := BParam | BTrue | BFalse.        (* the message's boolean argument / a literal *)
 Inductive fval := FParam | FNone.                  (* the message's descriptor / None *)
-Inductive ccond := CStarted | CNeedsInit.          (* the local `started` / self.vring_needs_init(vring) *)
+Inductive ccond := CStarted | CNeedsInit | CNoProtocolFeatures.   (* the local `started` / self.vring_needs_init(vring) /
+                                                                     acked_features & PROTOCOL_FEATURES == 0 *)
 
 Inductive cop :=
 | OCheckFeature (f : N)          (* self.check_feature(F)?                       *)
@@ -27,5 +28,12 @@ Inductive cop :=
 | OForgetFeatures                 (* self.features_acked = false                  *)
 | OClearAckedFeatures             (* self.acked_features = 0                      *)
 | OBackendReset                   (* self.backend.reset_device()                  *)
+| OCheckOffered                   (* if (features & !self.backend.features()) != 0 { return Err(InvalidParam) } *)
+| OSetAckedFeatures               (* self.acked_features = features               *)
+| OMarkFeaturesAcked              (* self.features_acked = true                   *)
+| OLetEventIdx                    (* let event_idx = acked_features & (1 << VIRTIO_RING_F_EVENT_IDX) != 0 *)
+| OSetEventIdxAll                 (* for vring in self.vrings.iter_mut() { vring.set_queue_event_idx(event_idx) } *)
+| OBackendEventIdx                (* self.backend.set_event_idx(event_idx)        *)
+| OBackendAckedFeatures           (* self.backend.acked_features(self.acked_features) *)
 | ORetOk                          (* Ok(())                                       *)
 | ORetState.                      (* Ok(VhostUserVringState::new(index, next_avail)) *)
